@@ -173,6 +173,39 @@ class RngModel:
         raise AnalysisError('may-draw summary did not reach a fixpoint')
 
 
+def rng_forwarding(index: RepoIndex, rep, rule: str, eff=None, rm=None) -> None:
+    """every call to a callee that may draw forwards the generator of the caller (C02.R3; also
+    the part of C04 that makes the seed alone decide a trajectory)"""
+    eff = eff or Effects(index)
+    rm = rm or RngModel(index, eff)
+    for q, f in sorted(eff.funcs.items()):
+        if not f.relpath.startswith(PKG):
+            continue
+        w = eff.walks[q]
+        in_scope = 'rng' in w.params or (f.cls is not None and f.cls.name == 'GridWorld')
+        if not in_scope:
+            continue
+        for e in w.events:
+            if e.kind != 'call':
+                continue
+            targets = [t for t in eff.resolve(q, e.node)
+                       if any(p.arg == 'rng' for p in t.params())]
+            drawing = [t for t in targets if rm.may_draw(t, e.node, f)]
+            if not drawing:
+                continue
+            t0 = drawing[0]
+            b = eff.bind_args(t0, e.node)
+            a = b.get('rng')
+            want = 'self._rng' if 'rng' not in w.params else 'rng'
+            ok = a is not None and (src(a) == want or src(w.expand(a)) == want)
+            fam = '' if len(targets) == 1 else f' (family of {len(targets)})'
+            rep.check(ok, rule, f.relpath, f.short, e.line, src(e.node)[:120],
+                      f'call to {t0.short}{fam}, which may draw, passes rng='
+                      f'{src(a) if a is not None else "<nothing>"}, not {want}: the draw falls '
+                      f'back to the library-level generator', f'{f.short} -> {t0.short}')
+
+
+
 def run(index: RepoIndex, rep) -> None:
     rep.rule('C02.R1', 'no global randomness: stdlib random, legacy numpy.random, urandom, '
              'id(), hash() outside __hash__; one generator constructor; _gv_rng written only '
@@ -371,31 +404,7 @@ def run(index: RepoIndex, rep) -> None:
                               'a fresh generator is created outside GridWorld.set_seed')
 
     # ---------------------------------------------------------------- R3
-    for q, f in sorted(eff.funcs.items()):
-        if not f.relpath.startswith(PKG):
-            continue
-        w = eff.walks[q]
-        in_scope = 'rng' in w.params or (f.cls is not None and f.cls.name == 'GridWorld')
-        if not in_scope:
-            continue
-        for e in w.events:
-            if e.kind != 'call':
-                continue
-            targets = [t for t in eff.resolve(q, e.node)
-                       if any(p.arg == 'rng' for p in t.params())]
-            drawing = [t for t in targets if rm.may_draw(t, e.node, f)]
-            if not drawing:
-                continue
-            t0 = drawing[0]
-            b = eff.bind_args(t0, e.node)
-            a = b.get('rng')
-            want = 'self._rng' if 'rng' not in w.params else 'rng'
-            ok = a is not None and (src(a) == want or src(w.expand(a)) == want)
-            fam = '' if len(targets) == 1 else f' (family of {len(targets)})'
-            rep.check(ok, 'C02.R3', f.relpath, f.short, e.line, src(e.node)[:120],
-                      f'call to {t0.short}{fam}, which may draw, passes rng='
-                      f'{src(a) if a is not None else "<nothing>"}, not {want}: the draw falls '
-                      f'back to the library-level generator', f'{f.short} -> {t0.short}')
+    rng_forwarding(index, rep, 'C02.R3', eff, rm)
 
     # ---------------------------------------------------------------- R4
     gw = index.cls(GW, 'GridWorld')
